@@ -26,6 +26,7 @@ type Clause struct {
 	Free     bool // "free" clause: assumed, not checked (listed as assumption)
 	Internal bool
 	Optin    bool // exported to callers only on request (use callee.clause)
+	Slow     bool // obligations of this clause are solved in the thorough tier (and at relock) only
 }
 
 type QVar struct {
@@ -257,6 +258,11 @@ func parseClause(text string, line int) (*Clause, error) {
 	text = strings.TrimSpace(text)
 	if strings.HasPrefix(text, "free ") {
 		c.Free = true
+		text = strings.TrimSpace(text[5:])
+	}
+	if strings.HasPrefix(text, "slow ") {
+		// takes longer than the quick budget: solved in the thorough tier only
+		c.Slow = true
 		text = strings.TrimSpace(text[5:])
 	}
 	if strings.HasPrefix(text, "optin ") {
